@@ -63,11 +63,16 @@ Theorem xpcall_handler_result_delivered : forall n fr args s e s1 hv s2,
 Proof. exact xpcall_of_err_ret_lemma. Qed.
 Print Assumptions xpcall_handler_result_delivered.
 
-Theorem xpcall_contains : forall n fr args s,
-  (forall e s', never_err (call (pred n) (pframes fr) (nth 1 args VNil) [e] s')) ->
-  never_err (builtin_call n fr BXpcall args s).
+Theorem xpcall_contains : forall n fr args s, never_err (builtin_call n fr BXpcall args s).
 Proof. exact xpcall_contains_lemma. Qed.
 Print Assumptions xpcall_contains.
+
+(* a handler that does not fail is not interfered with: its results are delivered as they are *)
+Theorem xpcall_handler_result_as_is : forall n fr h e s,
+  never_err (call n (pframes fr) h [e] s) ->
+  req (xp_handler n fr h e s) (bind (call n (pframes fr) h [e] s) (fun hv s'' => Ret [VBool false; first hv] s'')).
+Proof. exact xp_handler_ok_lemma. Qed.
+Print Assumptions xpcall_handler_result_as_is.
 
 Theorem xpcall_handler_unused_without_error : forall n fr f h h' s,
   never_err (call n (pframes fr) f [] s) ->
